@@ -75,6 +75,23 @@ CLAIMS = {
         technique='Lean 4 proof (induction over the frame list, reuse of the C08 invariant) + model/implementation '
                   'correspondence + precedence/scope oracle',
         ref='DESIGN.md §5 C02'),
+    'C19': dict(
+        text='Lean 4 theorems about piece joining in the interpreter model (joinPieces = render_blocks 0/1/n rule, joinUnicode '
+             '= join_unicode, decodeBytes with the template encoding, htmlQuote on bytes), for ALL piece lists and texts: '
+             'utf8_roundtrip (decode(encode s) = s for every text, via the core UTF-8 library), latin1_roundtrip, '
+             'join_is_text, multi_piece_is_text, toplevel_multi_piece_text, decodeAll_bytes_equiv / join_bytes_equiv / '
+             'render_bytes_equiv (a bytes piece that decodes to s can be replaced by the text piece s at any position), '
+             'utf8_bytes_equiv, latin1_bytes_equiv, join_texts, html_quote_bytes_equiv, in_body_is_text, try_join_is_text, '
+             'piece_of_bytes / piece_of_str / ustr_spec. Correspondence: results of 22 insertion forms x texts x {utf-8, '
+             'latin-1} with the value given as bytes and as text; oracle: render(bytes) == render(text) and text result, also '
+             'for cp1252 and utf-16 templates; str() table of 35 values (exceptions with 0/1/n and falsy args, objects with '
+             '__str__) through 6 forms; misbehaving __str__ raises',
+        note='Trusted: Lean kernel; interpreter model validated (not verified) against the real classes; codecs other than '
+             'UTF-8 / Latin-1 and Python str()/repr() of containers are oracle-only. Partial: the full Var.render path decodes '
+             'bytes as Latin-1 (known finding C19-bytes-fullpath, same defect as C03-bytes-fullpath)',
+        technique='Lean 4 proof (codec round trips from the core UTF-8 lemmas, induction over the piece list) + '
+                  'model/implementation correspondence + bytes-vs-text oracle',
+        ref='DESIGN.md §5 C19'),
     'C08': dict(
         text='Lean 4 theorems about the interpreter model (Render.lean: namespace stack, lookups with auto-call, '
              'expressions, every block tag, sub-template calls, dtml-return, exceptions, fault plans as part of the '
